@@ -246,7 +246,10 @@ class SymExec:
                 self.emit('del', self.expr(_load(t)), node=s)
         elif isinstance(s, ast.If):
             self.do_if(s)
-        elif isinstance(s, ast.Try) and not any(isinstance(n, ast.Raise) for b in s.body for n in _walk_own_stmts(b)):
+        elif isinstance(s, ast.Try) and not any(isinstance(n, ast.Raise) for b in s.body for n in _walk_own_stmts(b)) \
+                and all(h.type is None or (isinstance(h.type, ast.Name) and h.type.id in ('Exception', 'BaseException')) for h in s.handlers):
+            # (only handlers that contain failures in general: `except KeyError` / `except StopIteration` around a look-up is ordinary control flow,
+            # where "nothing raises" is not the run to describe -- such a try stays unsupported)
             # the guards extracted here describe the runs in which nothing called inside the try raises (the stand-ins of the decision tables do
             # not raise; what happens when a decoder raises is the subject of other rules): body, then else, then finally; the handlers are
             # recorded as one event so that a consumer can see that they exist
